@@ -104,19 +104,23 @@ Qed.
 
 (* ---- C06 no directives ---- *)
 Lemma filter_no_hls : forall q k v,
-  parse_error q = false -> In (QPair k v) (filterOutHLSParams q) -> prefix "_HLS_" k = false.
+  In (QPair k v) (filterOutHLSParams q) -> prefix "_HLS_" k = false.
 Proof.
-  intros q k v Hp Hin. unfold filterOutHLSParams in Hin. destruct q as [|a q]; [destruct Hin|].
-  rewrite Hp in Hin. apply filter_In in Hin. destruct Hin as [_ H]. simpl in H.
-  destruct (prefix "_HLS_" k); [discriminate|reflexivity].
+  intros q k v Hin. unfold filterOutHLSParams in Hin. apply filter_In in Hin.
+  destruct Hin as [_ H]. simpl in H. destruct (prefix "_HLS_" k); [discriminate|reflexivity].
+Qed.
+
+Lemma filter_no_bad : forall q, ~ In QBad (filterOutHLSParams q).
+Proof.
+  intros q Hin. unfold filterOutHLSParams in Hin. apply filter_In in Hin.
+  destruct Hin as [_ H]. simpl in H. discriminate.
 Qed.
 
 Lemma filter_keeps_others : forall q k v,
-  parse_error q = false -> In (QPair k v) q -> prefix "_HLS_" k = false ->
-  In (QPair k v) (filterOutHLSParams q).
+  In (QPair k v) q -> prefix "_HLS_" k = false -> In (QPair k v) (filterOutHLSParams q).
 Proof.
-  intros q k v Hp Hin Hk. unfold filterOutHLSParams. destruct q as [|a q]; [destruct Hin|].
-  rewrite Hp. apply filter_In. split; [exact Hin|]. simpl. rewrite Hk. reflexivity.
+  intros q k v Hin Hk. unfold filterOutHLSParams. apply filter_In. split; [exact Hin|].
+  simpl. rewrite Hk. reflexivity.
 Qed.
 
 Lemma playlist_query : forall v s d q pl,
@@ -127,22 +131,19 @@ Proof.
   destruct (nextSegment s); inversion H; subst; reflexivity.
 Qed.
 
-Lemma no_directives_partial : forall v s d q pl k x,
-  parse_error q = false ->
+Lemma no_directives : forall v s d q pl k x,
   generateMediaPlaylistFMP4 v s d q = Some pl ->
   In (QPair k x) (pl_query pl) -> prefix "_HLS_" k = false.
 Proof.
-  intros v s d q pl k x Hp H Hin. rewrite (playlist_query _ _ _ _ _ H) in Hin.
+  intros v s d q pl k x H Hin. rewrite (playlist_query _ _ _ _ _ H) in Hin.
   eapply filter_no_hls; eauto.
 Qed.
 
-(* F9: with a token url.ParseQuery rejects, the directive the handler honoured is copied *)
-Definition f9_query : query := [QPair "_HLS_skip" "YES"; QBad].
-
-Lemma no_directives_refuted :
-  exists q, queryVal q "_HLS_skip" = "YES"%string /\
-            In (QPair "_HLS_skip" "YES") (filterOutHLSParams q).
-Proof. exists f9_query. vm_compute. auto. Qed.
+(* the directive the handler honoured is not copied even when the query is partly malformed *)
+Lemma no_directives_example :
+  queryVal [QPair "_HLS_skip" "YES"; QBad; QPair "token" "t"] "_HLS_skip" = "YES"%string /\
+  filterOutHLSParams [QPair "_HLS_skip" "YES"; QBad; QPair "token" "t"] = [QPair "token" "t"].
+Proof. vm_compute. auto. Qed.
 
 (* ---- the generated playlist of a Low-Latency stream ---- *)
 Lemma gen_LL : forall s q ps,
@@ -203,14 +204,38 @@ Section Contains.
   Qed.
 End Contains.
 
-(* ---- C06 ready_sound (partial: F11 excluded) ---- *)
-Lemma ready_sound_partial : forall s q M P,
+(* the window ends with a real segment: a gap is never the last listed entry *)
+Lemma nth_error_last : forall A (l : list A) d, l <> [] ->
+  nth_error l (List.length l - 1) = Some (last l d).
+Proof.
+  intros A l d; induction l as [|a l IH]; intros H; [congruence|].
+  destruct l as [|b l]; [reflexivity|].
+  replace (List.length (a :: b :: l) - 1)%nat with (S (List.length (b :: l) - 1)) by (simpl; lia).
+  change (nth_error (b :: l) (List.length (b :: l) - 1) = Some (last (b :: l) d)).
+  apply IH. discriminate.
+Qed.
+
+Lemma gap_not_last : forall s M d,
+  wf_stream LL s -> segments s <> [] ->
+  entry (segmentDeleteCount s) (segments s) M = Some (Gap d) ->
+  M + 1 < segmentDeleteCount s + zlen (segments s).
+Proof.
+  intros s M d W Hne HE. pose proof (entry_some_bounds _ _ _ _ HE) as Hb.
+  destruct (Z.eq_dec (M + 1) (segmentDeleteCount s + zlen (segments s))) as [E|]; [|lia].
+  exfalso. destruct (wf_last _ _ W Hne) as [id [ps [d0 HL]]].
+  unfold entry in HE. replace (M <? segmentDeleteCount s) with false in HE by lia.
+  replace (Z.to_nat (M - segmentDeleteCount s)) with (List.length (segments s) - 1)%nat in HE
+    by (unfold zlen in E; lia).
+  rewrite (nth_error_last _ _ (Gap 0) Hne) in HE. congruence.
+Qed.
+
+(* ---- C06 ready_sound ---- *)
+Lemma ready_sound : forall s q M P,
   wf_stream LL s -> in_range s -> 0 <= M -> (forall p, P = Some p -> 0 <= p) ->
   decide LL s M P = Ready ->
-  f11_input s M P = false ->
   exists pl, generateMediaPlaylistFMP4 LL s false q = Some pl /\ pl_contains pl M P = true.
 Proof.
-  intros s q M P W R HM HP Hd Hf.
+  intros s q M P W R HM HP Hd.
   assert (Hne : segments s <> []).
   { unfold decide, decide_core in Hd. destruct (range_reject s M); [discriminate|].
     destruct (hasContent LL s) eqn:E; [apply hasContent_LL; exact E|discriminate]. }
@@ -218,155 +243,103 @@ Proof.
   eexists; split; [apply (gen_LL s q ps Hopen)|].
   set (pl := {| pl_mediaSequence := _ |}).
   assert (Hpl : generateMediaPlaylistFMP4 LL s false q = Some pl) by (apply gen_LL; exact Hopen).
-  set (p := match P with Some p => p | None => 0 end).
-  assert (Hp : 0 <= p) by (unfold p; destruct P; [apply HP; reflexivity|lia]).
-  unfold decide in Hd. fold p in Hd.
-  rewrite (decide_core_spec s M p W R Hne HM Hp) in Hd. rewrite Hopen in Hd.
-  destruct ((nextSegmentID s + 1 <? M) || (M <=? head_msn s)); [discriminate|].
+  unfold decide, decide_core in Hd. rewrite (range_reject_spec LL s M W R Hne HM) in Hd.
+  destruct ((nextSegmentID s + 1 <? M) || (M <=? head_msn s)) eqn:ER; [discriminate|].
+  replace (hasContent LL s) with true in Hd by (symmetry; apply hasContent_LL; exact Hne).
   pose proof (pl_open_spec s q ps pl W Hne Hopen Hpl) as Hop.
   pose proof (pl_fields s q ps pl Hopen Hpl) as [_ [Hparts _]].
-  destruct (M =? nextSegmentID s) eqn:EM.
-  - (* the open segment *)
-    destruct P as [p'|]; [|unfold f11_input in Hf; congruence].
-    unfold pl_contains. rewrite Hop, EM, Hparts. unfold p in Hd.
-    destruct (p' <? zlen ps); [|discriminate]. rewrite orb_true_r. reflexivity.
-  - destruct (loop_spec (segmentDeleteCount s) (segments s) M p) eqn:EL; [|discriminate].
-    unfold loop_spec in EL.
-    destruct (entry (segmentDeleteCount s) (segments s) M) as [[d|id parts d]|] eqn:EE; try discriminate.
-    assert (HL : pl_listed pl M = true).
-    { apply (listed_entry s q ps pl Hopen Hpl). eauto. }
-    destruct P as [p'|]; unfold pl_contains; [|exact HL].
-    rewrite HL. simpl andb. apply orb_true_iff. left. unfold p in EL.
-    destruct (entry (segmentDeleteCount s) (segments s) (M + 1)) as [sg'|] eqn:EN.
-    + (* the following segment is complete too *)
-      apply orb_true_iff. right. unfold pl_part0. apply orb_true_iff. left.
-      apply (listed_entry s q ps pl Hopen Hpl). eauto.
-    + (* M is the last complete segment: its parts are listed *)
-      rewrite orb_false_r in EL. apply orb_true_iff. left.
-      rewrite (listed_parts_spec s q ps pl Hopen Hpl M id parts d EE).
-      pose proof (entry_some_bounds _ _ _ _ EE) as Hb.
-      assert (segmentDeleteCount s + zlen (segments s) <= M + 1).
-      { destruct (Z_lt_le_dec (M + 1) (segmentDeleteCount s + zlen (segments s))) as [Hlt|]; [|lia].
-        destruct (entry_some_within (segmentDeleteCount s) (segments s) (M + 1)) as [x Hx]; [lia|congruence]. }
-      replace (zlen (segments s) - (M - segmentDeleteCount s) <=? 2) with true by lia. exact EL.
+  pose proof (pl_listed_spec s q ps pl Hopen Hpl) as HLS.
+  pose proof (next_is_open s W Hne) as Hnext. unfold head_msn in ER.
+  destruct P as [p|].
+  - assert (Hp : 0 <= p) by (apply HP; reflexivity).
+    rewrite (hasPart_spec LL s M p W R Hne HM) in Hd. unfold open_has in Hd. rewrite Hopen in Hd.
+    unfold pl_contains. rewrite Hop, Hparts.
+    destruct (M =? nextSegmentID s) eqn:EM.
+    + destruct (p <? zlen ps); [|discriminate]. rewrite orb_true_r. reflexivity.
+    + destruct ((M <? segmentDeleteCount s) || (nextSegmentID s <? M)) eqn:EW; [discriminate|].
+      assert (HL : pl_listed pl M = true) by (rewrite HLS; lia).
+      rewrite HL. simpl andb. rewrite orb_false_r.
+      destruct (entry (segmentDeleteCount s) (segments s) M) as [[d|id parts d]|] eqn:EE; [| |discriminate].
+      * (* a listed gap: the following entry is listed too *)
+        pose proof (gap_not_last s M d W Hne EE).
+        apply orb_true_iff. right. unfold pl_part0. rewrite HLS. apply orb_true_iff. left. lia.
+      * destruct (p <? zlen parts) eqn:Ep.
+        -- destruct (Z_lt_le_dec (M + 1) (nextSegmentID s)) as [Hlt|Hge].
+           ++ apply orb_true_iff. right. unfold pl_part0. rewrite HLS. apply orb_true_iff. left. lia.
+           ++ apply orb_true_iff. left.
+              rewrite (listed_parts_spec s q ps pl Hopen Hpl M id parts d EE).
+              replace (zlen (segments s) - (M - segmentDeleteCount s) <=? 2) with true by lia. exact Ep.
+        -- apply orb_true_iff. right. unfold pl_part0. rewrite HLS, Hop, Hparts.
+           destruct (negb (M + 1 =? nextSegmentID s)) eqn:En.
+           ++ apply orb_true_iff. left. lia.
+           ++ apply orb_true_iff. right. destruct (0 <? zlen ps) eqn:E0; [|discriminate]. lia.
+  - unfold pl_contains. rewrite HLS. destruct (M <? nextSegmentID s) eqn:E; [|discriminate]. lia.
 Qed.
 
-(* ---- C06 ready_complete (partial: F3a, F3b excluded) ---- *)
-Lemma f3b_entry : forall s M, 0 <= segmentDeleteCount s ->
-  f3b_input s M = match entry (segmentDeleteCount s) (segments s) M with Some (Gap _) => true | _ => false end.
-Proof.
-  intros s M Hd. unfold f3b_input, entry.
-  destruct (M <? segmentDeleteCount s) eqn:E.
-  - replace (segmentDeleteCount s <=? M) with false by lia. reflexivity.
-  - replace (segmentDeleteCount s <=? M) with true by lia. reflexivity.
-Qed.
-
-Lemma ready_complete_partial : forall s q M P pl,
+(* ---- C06 ready_complete ---- *)
+Lemma ready_complete : forall s q M P pl,
   wf_stream LL s -> in_range s -> 0 <= M -> (forall p, P = Some p -> 0 <= p) ->
   segments s <> [] ->
   generateMediaPlaylistFMP4 LL s false q = Some pl ->
   pl_contains pl M P = true ->
-  f3a_input s M P = false -> f3b_input s M = false ->
   decide LL s M P <> Block.
 Proof.
-  intros s q M P pl W R HM HP Hne Hpl Hc Ha Hb.
+  intros s q M P pl W R HM HP Hne Hpl Hc.
   destruct (nextSegment s) as [ps|] eqn:Hopen; [|exfalso; apply (wf_open _ _ W Hne); exact Hopen].
-  set (p := match P with Some p => p | None => 0 end).
-  assert (Hp : 0 <= p) by (unfold p; destruct P; [apply HP; reflexivity|lia]).
-  unfold decide. fold p. rewrite (decide_core_spec s M p W R Hne HM Hp). rewrite Hopen.
-  destruct ((nextSegmentID s + 1 <? M) || (M <=? head_msn s)); [discriminate|].
+  unfold decide, decide_core. rewrite (range_reject_spec LL s M W R Hne HM).
+  destruct ((nextSegmentID s + 1 <? M) || (M <=? head_msn s)) eqn:ER; [discriminate|].
+  replace (hasContent LL s) with true by (symmetry; apply hasContent_LL; exact Hne).
   pose proof (pl_open_spec s q ps pl W Hne Hopen Hpl) as Hop.
   pose proof (pl_fields s q ps pl Hopen Hpl) as [_ [Hparts _]].
   pose proof (pl_listed_spec s q ps pl Hopen Hpl) as HLS.
-  pose proof (next_is_open s W Hne) as Hnext.
-  destruct (M =? nextSegmentID s) eqn:EM.
-  - (* open segment: contained only through its trailing parts *)
-    assert (HnL : pl_listed pl M = false) by (rewrite HLS; lia).
-    destruct P as [p'|]; unfold pl_contains in Hc.
-    + rewrite HnL, Hop, EM, Hparts in Hc. simpl in Hc. unfold p. rewrite Hc. discriminate.
-    + congruence.
-  - assert (HL : pl_listed pl M = true).
-    { destruct P as [p'|]; unfold pl_contains in Hc; [|exact Hc].
-      rewrite Hop, EM in Hc. simpl in Hc. rewrite orb_false_r in Hc.
-      apply andb_true_iff in Hc. tauto. }
-    destruct (proj1 (listed_entry s q ps pl Hopen Hpl M) HL) as [sg EE].
-    unfold loop_spec. rewrite EE. rewrite (f3b_entry s M (wf_dc _ _ W)), EE in Hb.
-    destruct sg as [d|id parts d]; [discriminate|].
-    destruct (p <? zlen parts) eqn:Ep; [discriminate|]. simpl orb.
-    destruct (entry (segmentDeleteCount s) (segments s) (M + 1)) as [sg'|] eqn:EN; [discriminate|].
-    exfalso.
-    (* M is the last complete segment and the part index is past its end *)
-    pose proof (entry_some_bounds _ _ _ _ EE) as Hbd.
-    assert (HMl : M + 1 = segmentDeleteCount s + zlen (segments s)).
-    { destruct (Z_lt_le_dec (M + 1) (segmentDeleteCount s + zlen (segments s))) as [Hlt|]; [|lia].
-      destruct (entry_some_within (segmentDeleteCount s) (segments s) (M + 1)) as [x Hx]; [lia|congruence]. }
-    destruct (wf_segs _ _ W) as [bb Hok].
-    assert (Hparts1 : 1 <= zlen parts).
-    { clear - EE Hok. revert EE Hok. generalize (segmentDeleteCount s) bb. generalize (segments s).
-      induction l as [|a r IH]; intros k b EE Hok.
-      - rewrite entry_nil in EE; discriminate.
-      - destruct (Z.eq_dec M k) as [->|Hn].
-        + rewrite entry_cons_hd in EE. inversion EE; subst. destruct Hok as [_ [Hps _]].
-          apply zlen_pos_nonempty. auto.
-        + pose proof (entry_some_bounds _ _ _ _ EE). rewrite entry_cons_tl in EE by lia.
-          destruct a; [destruct Hok as [_ Hok]|destruct Hok as [_ [_ Hok]]]; eapply IH; eauto. }
-    destruct P as [p'|].
-    + (* F3a exactly *)
-      unfold p in Ep. unfold pl_contains in Hc. rewrite HL, Hop, EM in Hc. simpl in Hc.
-      rewrite orb_false_r in Hc.
+  pose proof (next_is_open s W Hne) as Hnext. unfold head_msn in ER.
+  destruct P as [p|].
+  - assert (Hp : 0 <= p) by (apply HP; reflexivity).
+    rewrite (hasPart_spec LL s M p W R Hne HM). unfold open_has. rewrite Hopen.
+    unfold pl_contains in Hc. rewrite Hop, Hparts in Hc.
+    destruct (M =? nextSegmentID s) eqn:EM.
+    + assert (HnL : pl_listed pl M = false) by (rewrite HLS; lia).
+      rewrite HnL in Hc. simpl in Hc. rewrite Hc. discriminate.
+    + simpl in Hc. rewrite orb_false_r in Hc. apply andb_true_iff in Hc. destruct Hc as [HL Hc].
+      rewrite HLS in HL.
+      replace ((M <? segmentDeleteCount s) || (nextSegmentID s <? M)) with false by lia.
+      destruct (entry_in_window LL s M W Hne) as [sg EE]; [lia|]. rewrite EE.
+      destruct sg as [d|id parts d]; [discriminate|].
+      destruct (p <? zlen parts) eqn:Ep; [discriminate|].
+      destruct (negb (M + 1 =? nextSegmentID s)) eqn:En; [discriminate|].
+      (* M is the last complete segment and p is past its end: part 0 of the open segment *)
       rewrite (listed_parts_spec s q ps pl Hopen Hpl M id parts d EE) in Hc.
       replace (zlen (segments s) - (M - segmentDeleteCount s) <=? 2) with true in Hc by lia.
       rewrite Ep in Hc. simpl in Hc. unfold pl_part0 in Hc. rewrite HLS, Hop, Hparts in Hc.
       replace ((segmentDeleteCount s <=? M + 1) && (M + 1 <? segmentDeleteCount s + zlen (segments s)))
         with false in Hc by lia.
       simpl in Hc. apply andb_true_iff in Hc. destruct Hc as [_ Hc].
-      unfold f3a_input, last_seg in Ha. rewrite Hopen in Ha.
-      assert (EL : nth_error (segments s) (List.length (segments s) - 1) = Some (Seg id parts d)).
-      { unfold entry in EE. replace (M <? segmentDeleteCount s) with false in EE by lia.
-        replace (List.length (segments s) - 1)%nat with (Z.to_nat (M - segmentDeleteCount s));
-          [exact EE|unfold zlen in HMl; lia]. }
-      rewrite EL in Ha.
-      assert (id = M).
-      { clear - EE Hok. revert EE Hok. generalize (segmentDeleteCount s) bb. generalize (segments s).
-        induction l as [|a r IH]; intros k b EE Hok.
-        - rewrite entry_nil in EE; discriminate.
-        - destruct (Z.eq_dec M k) as [->|Hn].
-          + rewrite entry_cons_hd in EE. inversion EE; subst. destruct Hok as [? _]; auto.
-          + pose proof (entry_some_bounds _ _ _ _ EE). rewrite entry_cons_tl in EE by lia.
-            destruct a; [destruct Hok as [_ Hok]|destruct Hok as [_ [_ Hok]]]; eapply IH; eauto. }
-      subst id. rewrite Z.eqb_refl, EM in Ha. simpl in Ha.
-      replace (zlen parts <=? p') with true in Ha by lia. rewrite Hc in Ha. discriminate.
-    + unfold p in Ep. lia.
+      replace (0 <? zlen ps) with true by lia. discriminate.
+  - unfold pl_contains in Hc. rewrite HLS in Hc. replace (M <? nextSegmentID s) with true by lia. discriminate.
 Qed.
 
 (* ---- C06 400_only_if / never_reject ---- *)
 Lemma only_400_if : forall s M P,
   wf_stream LL s -> in_range s -> segments s <> [] -> 0 <= M ->
-  (forall p, P = Some p -> 0 <= p) ->
   (decide LL s M P = Respond400 <-> (M > last_complete_msn s + 2 \/ M <= head_msn s)).
 Proof.
-  intros s M P W R Hne HM HP.
-  set (p := match P with Some p => p | None => 0 end).
-  assert (Hp : 0 <= p) by (unfold p; destruct P; [apply HP; reflexivity|lia]).
-  unfold decide. fold p. rewrite (decide_core_spec s M p W R Hne HM Hp).
-  unfold last_complete_msn.
+  intros s M P W R Hne HM. unfold decide, decide_core.
+  rewrite (range_reject_spec LL s M W R Hne HM). unfold last_complete_msn.
   destruct ((nextSegmentID s + 1 <? M) || (M <=? head_msn s)) eqn:E.
   - split; [intros _; lia|reflexivity].
   - split; [|intros; lia]. intros H.
-    destruct (M =? nextSegmentID s).
-    + destruct (nextSegment s); [destruct (p <? zlen l)|]; discriminate.
-    + destruct (loop_spec _ _ _ _); discriminate.
+    destruct (hasContent LL s); [|discriminate].
+    destruct P as [p|]; [destruct (hasPart s M p) as [[|]|]|destruct (M <? nextSegmentID s)]; discriminate.
 Qed.
 
 Lemma never_reject : forall s M P,
   wf_stream LL s -> in_range s -> hasContent LL s = true -> 0 <= nextSegmentID s ->
-  (forall p, P = Some p -> 0 <= p) ->
   M = nextSegmentID s \/ M = nextSegmentID s + 1 ->
   decide LL s M P <> Respond400.
 Proof.
-  intros s M P W R Hc H0 HP HMM. apply hasContent_LL in Hc.
+  intros s M P W R Hc H0 HMM. apply hasContent_LL in Hc.
   assert (HM : 0 <= M) by lia.
-  intros H. apply (only_400_if s M P W R Hc HM HP) in H.
+  intros H. apply (only_400_if s M P W R Hc HM) in H.
   unfold last_complete_msn, head_msn in H. pose proof (wf_next _ _ W Hc).
   pose proof (zlen_pos_nonempty _ _ Hc). lia.
 Qed.
@@ -437,20 +410,18 @@ Qed.
 Lemma pre_good_args : forall q M,
   parseUint (queryVal q "_HLS_msn") = Some M ->
   (is_empty (queryVal q "_HLS_part") = true \/ exists p, parseUint (queryVal q "_HLS_part") = Some p) ->
-  exists p d, handleMediaPlaylist_pre LL q = MKBlocking M p d
-    /\ p = match parseUint (queryVal q "_HLS_part") with Some p => p | None => 0 end
-    /\ 0 <= M < two64 /\ 0 <= p < two64.
+  exists d, handleMediaPlaylist_pre LL q =
+              MKBlocking M (if is_empty (queryVal q "_HLS_part") then None
+                            else parseUint (queryVal q "_HLS_part")) d
+    /\ 0 <= M < two64.
 Proof.
   intros q M HM HP. unfold handleMediaPlaylist_pre, parseMSNPart.
   assert (Hne : is_empty (queryVal q "_HLS_msn") = false).
   { destruct (queryVal q "_HLS_msn"); [discriminate|reflexivity]. }
   rewrite Hne, HM. pose proof (parseUint_range _ _ HM).
   destruct HP as [HP|[p HP]].
-  - rewrite HP. simpl. do 2 eexists; split; [reflexivity|].
-    destruct (queryVal q "_HLS_part"); [|discriminate]. simpl. split; [reflexivity|].
-    split; [exact H|]. split; [lia|reflexivity].
+  - rewrite HP. simpl. eexists; split; [reflexivity|exact H].
   - assert (Hnp : is_empty (queryVal q "_HLS_part") = false).
     { destruct (queryVal q "_HLS_part"); [discriminate|reflexivity]. }
-    rewrite Hnp, HP. simpl. do 2 eexists; split; [reflexivity|].
-    pose proof (parseUint_range _ _ HP). auto.
+    rewrite Hnp, HP. simpl. eexists; split; [reflexivity|exact H].
 Qed.
